@@ -600,12 +600,20 @@ func (e *Engine) enterLoop(fr *Frame, head *ssa.BasicBlock, s *State) *State {
 				}
 			}
 			for _, b := range bases {
-				cond += fmt.Sprintf(" (not (= x %s))", b)
+				if strings.HasPrefix(b, "ELEMS:") {
+					cond += fmt.Sprintf(" (not (and (= (rkind x) 1) (= (ebase x) %s)))", b[6:])
+				} else {
+					cond += fmt.Sprintf(" (not (= x %s))", b)
+				}
 			}
 			e.emit(fmt.Sprintf("(assert (forall ((x Ref)) (! (=> (and %s) (= (select %s x) (select %s x))) :pattern ((select %s x)))))", cond, nv.S, pre.S, nv.S))
 			if e.collect != nil {
 				for _, b := range bases {
-					e.recStore(s, h, T{b, sRef})
+					if strings.HasPrefix(b, "ELEMS:") {
+						e.recStore(s, h, T{b[6:], "ELEMS"})
+					} else {
+						e.recStore(s, h, T{b, sRef})
+					}
 				}
 			}
 		} else {
@@ -771,6 +779,9 @@ func (e *Engine) loopModified(fr *Frame, head *ssa.BasicBlock, s *State) (cells 
 			var bs []string
 			for _, b := range col.bases[h] {
 				txt, inv := e.loopInvariantTerm(b.S, n0, markOf, cellSet, s)
+				if b.Sort == "ELEMS" {
+					txt = "ELEMS:" + txt
+				}
 				if !inv {
 					if isInLoopAlloc(b.S, n0) {
 						continue // object allocated by the loop body: not an old object
@@ -877,6 +888,12 @@ func (e *Engine) localValue(fr *Frame, s *State, lr LocalRef, head *ssa.BasicBlo
 			e.unsupported("loopx: cannot find range operand")
 		}
 		return e.val(fr, x)
+	}
+	if lr.Entry && lr.ParamIdx >= 0 {
+		if lr.ParamIdx >= len(fr.fn.Params) {
+			e.unsupported("header parameter %s out of range", lr.Name)
+		}
+		return e.val(fr, fr.fn.Params[lr.ParamIdx])
 	}
 	if lr.Entry {
 		name := strings.TrimPrefix(lr.Name, "gvcentry_")
